@@ -157,6 +157,196 @@ type task struct {
 	run  func(c *fw.Ctx)
 }
 
+// TPos holds a logical-time value in every position a record can put it: behind pointers (twice, so that two
+// values are allocated from the same resource bank), as array items, as map values and under nullable unions.
+type TPos struct {
+	A  *time.Time
+	B  *time.Time
+	L  []time.Time
+	M  map[string]time.Time
+	N  *time.Time
+	N2 *time.Time
+	Z  time.Time
+}
+
+func posSchema(u unit) string {
+	t := u.schema
+	return `{"type":"record","name":"p","fields":[{"name":"A","type":` + t + `},{"name":"B","type":` + t + `},{"name":"L","type":{"type":"array","items":` + t +
+		`}},{"name":"M","type":{"type":"map","values":` + t + `}},{"name":"N","type":["null",` + t + `]},{"name":"N2","type":[` + t + `,"null"]},{"name":"Z","type":` + t + `}]}`
+}
+
+type posVal struct {
+	a, b    int64
+	n       int // 0: both unions null, 1: N set, 2: N2 set, 3: both set
+	la, lb  int64
+	present bool
+}
+
+func encodePos(v posVal) []byte {
+	b := ref.AppendLong(nil, v.a)
+	b = ref.AppendLong(b, v.b)
+	b = ref.AppendLong(b, 2) // array block of two
+	b = ref.AppendLong(b, v.lb)
+	b = ref.AppendLong(b, v.la)
+	b = ref.AppendLong(b, 0)
+	b = ref.AppendLong(b, 2) // map block of two
+	b = append(ref.AppendLong(b, 1), 'j')
+	b = ref.AppendLong(b, v.la)
+	b = append(ref.AppendLong(b, 1), 'k')
+	b = ref.AppendLong(b, v.lb)
+	b = ref.AppendLong(b, 0)
+	if v.n&1 != 0 {
+		b = ref.AppendLong(b, 1)
+		b = ref.AppendLong(b, v.b)
+	} else {
+		b = ref.AppendLong(b, 0)
+	}
+	if v.n&2 != 0 {
+		b = ref.AppendLong(b, 0)
+		b = ref.AppendLong(b, v.a)
+	} else {
+		b = ref.AppendLong(b, 1)
+	}
+	return ref.AppendLong(b, v.la)
+}
+
+func checkPos(u unit, v posVal, g *TPos) string {
+	eq := func(name string, got *time.Time, want int64) string {
+		if got == nil {
+			return name + " is nil"
+		}
+		if _, off := got.Zone(); !got.Equal(u.toTime(want)) || off != 0 {
+			return fmt.Sprintf("%s = %s, stored integer %d means %s", name, got.Format(time.RFC3339Nano), want, u.toTime(want).Format(time.RFC3339Nano))
+		}
+		return ""
+	}
+	if d := eq("A(*time.Time)", g.A, v.a); d != "" {
+		return d
+	}
+	if d := eq("B(*time.Time)", g.B, v.b); d != "" {
+		return d
+	}
+	if len(g.L) != 2 || len(g.M) != 2 {
+		return fmt.Sprintf("array has %d items, map %d entries, want 2 and 2", len(g.L), len(g.M))
+	}
+	if d := eq("L[0]", &g.L[0], v.lb); d != "" {
+		return d
+	}
+	if d := eq("L[1]", &g.L[1], v.la); d != "" {
+		return d
+	}
+	mj, mk := g.M["j"], g.M["k"]
+	if d := eq("M[j]", &mj, v.la); d != "" {
+		return d
+	}
+	if d := eq("M[k]", &mk, v.lb); d != "" {
+		return d
+	}
+	if v.n&1 != 0 {
+		if d := eq("N([null,T])", g.N, v.b); d != "" {
+			return d
+		}
+	} else if g.N != nil {
+		return "N([null,T]) not nil for a null"
+	}
+	if v.n&2 != 0 {
+		if d := eq("N2([T,null])", g.N2, v.a); d != "" {
+			return d
+		}
+	} else if g.N2 != nil {
+		return "N2([T,null]) not nil for a null"
+	}
+	return eq("Z", &g.Z, v.la)
+}
+
+// runPositions decodes pairs of consecutive records (same ReadBuf, so the same resource bank) whose logical-time
+// values sit in every position, checks every instant after BOTH records are decoded, then writes the decoded
+// struct back and compares the bytes.
+func runPositions(c *fw.Ctx, u unit) {
+	codec := mustCodec(posSchema(u), TPos{})
+	vals := []int64{0, -1, 1, 18690, u.lo, u.hi, -86400001, 1700000000123}
+	var in []int64
+	for _, x := range vals {
+		if x >= u.lo && x <= u.hi {
+			in = append(in, x)
+		}
+	}
+	k := 0
+	for _, a := range in {
+		for _, b := range in {
+			for n := 0; n < 4; n++ {
+				k++
+				v1 := posVal{a: a, b: b, n: n, la: in[k%len(in)], lb: in[(k/3)%len(in)]}
+				v2 := posVal{a: b, b: in[(k+1)%len(in)], n: 3 - n, la: a, lb: in[(k/5)%len(in)]}
+				e1, e2 := encodePos(v1), encodePos(v2)
+				c.Eval(1)
+				c.NontrivialN(1)
+				det := map[string]interface{}{"unit": u.name, "record1": fmt.Sprintf("%+v", v1), "record2": fmt.Sprintf("%+v", v2)}
+				desc := fmt.Sprintf("%s positions: records %+v then %+v", u.name, v1, v2)
+				c.Guard("positions|"+u.name, desc, det, func() {
+					r := avro.NewReadBuf(append(append([]byte(nil), e1...), e2...))
+					var g1, g2 TPos
+					if err := codec.Read(r, unsafe.Pointer(&g1)); err != nil {
+						c.Violation("spurious-error|read|"+u.name+"|positions", fmt.Sprintf("%v — %s", err, desc), det)
+						return
+					}
+					if err := codec.Read(r, unsafe.Pointer(&g2)); err != nil || r.Len() != 0 {
+						c.Violation("spurious-error|read|"+u.name+"|positions", fmt.Sprintf("second record: %v, %d bytes left — %s", err, r.Len(), desc), det)
+						return
+					}
+					if d := checkPos(u, v1, &g1); d != "" {
+						c.Violation("wrong-instant|read|"+u.name+"|positions", "first record (checked after the second was decoded): "+d+" — "+desc, det)
+						return
+					}
+					if d := checkPos(u, v2, &g2); d != "" {
+						c.Violation("wrong-instant|read|"+u.name+"|positions", "second record: "+d+" — "+desc, det)
+						return
+					}
+					w := avro.NewWriteBuf(nil)
+					codec.Write(w, unsafe.Pointer(&g1))
+					// map iteration order is free: accept either order of the two entries
+					alt := posVal(v1)
+					if !bytesEq(w.Bytes(), e1) && !bytesEq(w.Bytes(), swapMap(alt)) {
+						c.Violation("wrong-bytes|write|"+u.name+"|positions", fmt.Sprintf("re-encoded %x, want %x — %s", w.Bytes(), e1, desc), det)
+					}
+				})
+			}
+		}
+	}
+	c.Sample(map[string]interface{}{"unit": u.name, "positions": "*T twice, []T, map[string]T, [null,T], [T,null], T", "record_pairs": k})
+}
+
+func bytesEq(a, b []byte) bool { return string(a) == string(b) }
+
+// swapMap is encodePos with the two map entries in the other order.
+func swapMap(v posVal) []byte {
+	b := ref.AppendLong(nil, v.a)
+	b = ref.AppendLong(b, v.b)
+	b = ref.AppendLong(b, 2)
+	b = ref.AppendLong(b, v.lb)
+	b = ref.AppendLong(b, v.la)
+	b = ref.AppendLong(b, 0)
+	b = ref.AppendLong(b, 2)
+	b = append(ref.AppendLong(b, 1), 'k')
+	b = ref.AppendLong(b, v.lb)
+	b = append(ref.AppendLong(b, 1), 'j')
+	b = ref.AppendLong(b, v.la)
+	b = ref.AppendLong(b, 0)
+	if v.n&1 != 0 {
+		b = ref.AppendLong(b, 1)
+		b = ref.AppendLong(b, v.b)
+	} else {
+		b = ref.AppendLong(b, 0)
+	}
+	if v.n&2 != 0 {
+		b = ref.AppendLong(b, 0)
+		b = ref.AppendLong(b, v.a)
+	} else {
+		b = ref.AppendLong(b, 1)
+	}
+	return ref.AppendLong(b, v.la)
+}
+
 var memo19 = map[string][]task{}
 
 func around(k int, d int64, lo, hi int64) []int64 {
@@ -288,6 +478,10 @@ func tasks19(tier string) []task {
 			c.Sample(map[string]interface{}{"unit": u.name, "direction": "write", "times": len(writeTimes(u)), "example": writeTimes(u)[3].Format(time.RFC3339Nano)})
 		}})
 	}
+	for _, u := range units {
+		u := u
+		ts = append(ts, task{u.name + "-positions", func(c *fw.Ctx) { runPositions(c, u) }})
+	}
 	// write direction over every day boundary near the epoch: t = d*86400 s + {−1ns,0,+1ns}
 	ts = append(ts, task{"date-write-day-boundaries", func(c *fw.Ctx) {
 		n := int64(20000)
@@ -310,9 +504,9 @@ func init() {
 		Level: "exploration",
 		Rule: func(tier string) string {
 			if tier == "thorough" {
-				return "exhaustive/structured enumeration through the real codecs built by Schema.Codec for struct{T time.Time}: read direction — every int32 day count (2^32); for timestamp-millis, timestamp-micros and plain long every 2^k±131072 inside the range representable in int64 nanoseconds plus the range extremes; write direction — ~13 base times × 31 offsets around them (±1ns/µs/ms/s/day) and every day boundary ±3,000,000 days around the epoch; each (unit, integer) or (unit, time) is a distinct case; non-trivial = compared with independent arithmetic (time.Unix/UnixMilli/UnixMicro, floor division)"
+				return "exhaustive/structured enumeration through the real codecs built by Schema.Codec for struct{T time.Time}: read direction — every int32 day count (2^32); for timestamp-millis, timestamp-micros and plain long every 2^k±131072 inside the range representable in int64 nanoseconds plus the range extremes; write direction — ~13 base times × 31 offsets around them (±1ns/µs/ms/s/day) and every day boundary ±3,000,000 days around the epoch; and, per unit, pairs of consecutive records carrying the type in every position (two *time.Time fields, []time.Time, map[string]time.Time, [null,T] and [T,null] into *time.Time, plain field) over all pairs of an 8-value alphabet × the 4 null patterns, checked after both records are decoded and re-encoded; each (unit, integer) or (unit, time) is a distinct case; non-trivial = compared with independent arithmetic (time.Unix/UnixMilli/UnixMicro, floor division)"
 			}
-			return "exhaustive/structured enumeration through the real codecs built by Schema.Codec for struct{T time.Time}: read direction — every day count with |d|<=2^20 plus ±512 around every power of two; for timestamp-millis, timestamp-micros and plain long every 2^k±1024 inside the range representable in int64 nanoseconds plus the range extremes; write direction — ~13 base times × 31 offsets around them and every day boundary ±20,000 days around the epoch; each (unit, integer) or (unit, time) is a distinct case; non-trivial = compared with independent arithmetic"
+			return "exhaustive/structured enumeration through the real codecs built by Schema.Codec for struct{T time.Time}: read direction — every day count with |d|<=2^20 plus ±512 around every power of two; for timestamp-millis, timestamp-micros and plain long every 2^k±1024 inside the range representable in int64 nanoseconds plus the range extremes; write direction — ~13 base times × 31 offsets around them and every day boundary ±20,000 days around the epoch; per unit, pairs of consecutive records carrying the type in every position (two *time.Time fields, []time.Time, map[string]time.Time, [null,T] and [T,null] into *time.Time, plain field) over all pairs of an 8-value alphabet × the 4 null patterns, checked after both records are decoded and re-encoded; each (unit, integer) or (unit, time) is a distinct case; non-trivial = compared with independent arithmetic"
 		},
 		Assumptions: []string{
 			"plain long follows the library's documented convention: nanoseconds since the epoch",
